@@ -1370,6 +1370,19 @@ fn main() {
         if cx.lean.differs(&m, &rust_consts) {
             cx.rep.disagree("consts", json!("generated constants vs the Rust API"), &rust_consts, &m);
         }
+        // values outside the documented 48-bit range are constructible through the public tuple field only
+        // (`new` masks, `new_checked` / `TryFrom` / `from_str` reject); they are outside the property's "every AS
+        // value" and outside `asn_parse_show`'s hypothesis.  What the code does with them is recorded, not judged.
+        {
+            let big = Asn(1 << 48);
+            let d = big.to_string();
+            let back = impl_parse("asn", &d);
+            cx.rep.notes.push(format!(
+                "out-of-range Asn(1<<48) (public tuple field; Asn::new_checked(1<<48) = {:?}) displays as {d:?}, which parses to `{back}`",
+                Asn::new_checked(1 << 48).map(|a| a.0)
+            ));
+            cx.rep.hit("prim out-of-range asn recorded");
+        }
         if Ipv4Addr::from_str("").is_ok() || Ipv6Addr::from_str("").is_ok() {
             cx.rep.spec_fail("C15:codec-hypothesis", "std reads the empty text as an IP address", json!({"string": ""}));
         }
